@@ -23,8 +23,8 @@ PROPS["C01"] = dict(
         ("src/bigint/addition.rs", "c01/bigint_addsub.rs"),
     ],
     kani=[dict(filter_q="c01_q_", filter_t=["c01_q_", "c01_t_"], jobs=14, timeout_q=150, timeout_t=900)],
-    engines=[],
-    functions=["biguint::addition::__add2", "AddAssign<&BigUint>", "Add<&BigUint> for &BigUint", "Add<BigUint> for BigUint",
+    engines=[dict(module="asmsym", func="run_addsub")],
+    functions=["schoolbook_add_assign_x86_64 (asm text)", "schoolbook_sub_assign_x86_64 (asm text)", "biguint::addition::__add2", "AddAssign<&BigUint>", "Add<&BigUint> for &BigUint", "Add<BigUint> for BigUint",
                "CheckedAdd"],
     bounds_quick="__add2: 14 shapes up to 11x11 digits; BigUint += / + forms: shapes up to 3x3 plus asm-reaching 5x5,5x6,6x5; all digit contents symbolic",
     bounds_thorough="__add2: all 78 shapes lb<=la<=11; Vec-level forms: all shapes <=4x4 plus {5,6,10,11} mixes; all digit contents symbolic",
